@@ -146,6 +146,106 @@ fn check_inbound_inner(rep: &mut Report, total: usize, terminated: bool, chunks:
     }
 }
 
+/// A pipelining peer: `nsmall` ordinary frames and then a frame of `total` wire bytes (terminated or not),
+/// cut into chunks that do NOT respect the frame boundaries, so that the beginning of the big frame arrives
+/// in the same read as the end of the small ones.
+fn check_inbound_burst(rep: &mut Report, nsmall: usize, small_len: usize, total: usize, terminated: bool, chunks: &[usize], limit: usize, step: usize, label: &str) {
+    let replay = json!({"monitor": "c17", "dir": "burst", "nsmall": nsmall, "small_len": small_len, "wire_bytes": total, "terminated": terminated, "chunks": chunks, "limit": limit, "build": label});
+    let r = vnet::catch(|| {
+        let mut data = Vec::new();
+        for _ in 0..nsmall {
+            data.extend(frame_of(small_len));
+            data.push(0);
+        }
+        let frame_len = if terminated { total - 1 } else { total };
+        data.extend(frame_of(frame_len.max(FRAME_FIXED)));
+        if terminated {
+            data.push(0);
+        }
+        let wire = new_wire(0);
+        {
+            let mut w = wire.borrow_mut();
+            let (mut off, mut i) = (0, 0);
+            while off < data.len() {
+                let n = chunks[i % chunks.len()].max(1).min(data.len() - off);
+                w.push(Rx::Bytes(data[off..off + n].to_vec()));
+                off += n;
+                i += 1;
+            }
+        }
+        let mut conn = Connection::new(VSocket(wire.clone()));
+        let mut outcomes = Vec::new();
+        for _ in 0..nsmall + 1 {
+            let fut = conn.receive_call::<serde_json::Value>();
+            let mut fut = core::pin::pin!(fut);
+            outcomes.push(match vnet::poll_once(fut.as_mut()) {
+                core::task::Poll::Ready(Ok(c)) => (In::Accepted, c.method()["parameters"]["t"].as_str().map(|s| s.len() + FRAME_FIXED).unwrap_or(0)),
+                core::task::Poll::Ready(Err(Error::BufferOverflow)) => (In::Overflow, 0),
+                core::task::Poll::Ready(Err(e)) => (In::Other(format!("{e:?}")), 0),
+                core::task::Poll::Pending => (In::Other("pending (waiting for more bytes)".into()), 0),
+            });
+        }
+        #[allow(unused_mut)]
+        let mut max_buf = 0usize;
+        #[cfg(zlink_verif)]
+        {
+            max_buf = conn.read().verif_state().2;
+        }
+        (outcomes, max_buf)
+    });
+    rep.eval(((total as u64) << 20) ^ ((nsmall as u64) << 50) ^ (small_len as u64) << 8 ^ (chunks.iter().fold(terminated as u64, |h, c| h.wrapping_mul(31).wrapping_add(*c as u64))) ^ 0xb0);
+    rep.count("inbound_burst_cases");
+    let (outcomes, max_buf) = match r {
+        Err(p) => {
+            rep.violation("C17/panic-while-receiving", format!("{p}; burst of {nsmall} small frames then {total} wire bytes"), replay);
+            return;
+        }
+        Ok(x) => x,
+    };
+    if cfg!(zlink_verif) && max_buf > limit + step {
+        rep.violation("C17/receive-buffer-grew-beyond-limit-plus-step", format!("buffer length {max_buf} > {limit}+{step}"), replay.clone());
+    }
+    let burst_total = nsmall * (small_len + 1) + total;
+    // the small frames in front: each smaller than the limit, so each must be delivered - unless the whole
+    // burst is so large that the receive buffer overflows before anything can be handed out (grey)
+    for (k, (o, l)) in outcomes[..nsmall].iter().enumerate() {
+        // what can still be sitting in the receive buffer together with this frame
+        let burst_total = (nsmall - k) * (small_len + 1) + total;
+        match o {
+            In::Accepted if *l == small_len => {}
+            In::Accepted => {
+                rep.violation("C17/inbound-accepted-frame-content-damaged", format!("small frame #{k} of the burst came back with length {l}, sent {small_len}"), replay.clone());
+                return;
+            }
+            In::Overflow if burst_total >= limit => {
+                rep.count("inbound_burst_refused_as_a_whole");
+                return;
+            }
+            // zlink hands a frame out only once everything read so far ends on a frame boundary (DESIGN 6.3):
+            // while the unterminated frame behind it is still growing below the limit, waiting is legitimate
+            In::Other(e) if !terminated && burst_total < limit + step && e.starts_with("pending") => {
+                rep.count("inbound_burst_waiting_for_the_unterminated_frame");
+                return;
+            }
+            other => {
+                rep.violation("C17/inbound-frame-below-limit-not-delivered", format!("small frame #{k} ({small_len} bytes) in front of a {total}-byte frame: {other:?}"), replay.clone());
+                return;
+            }
+        }
+    }
+    let must_overflow = total >= limit + step;
+    let must_accept = terminated && burst_total < limit;
+    match &outcomes[nsmall].0 {
+        In::Accepted if terminated && !must_overflow => rep.count("inbound_accepted"),
+        In::Accepted => rep.violation("C17/inbound-oversized-frame-accepted", format!("{total} wire bytes behind {nsmall} small frames, limit {limit}"), replay),
+        In::Overflow if !must_accept => rep.count("inbound_overflow_reported"),
+        In::Overflow => rep.violation("C17/inbound-frame-below-limit-refused", format!("{total} wire bytes behind {nsmall} small frames: the whole burst ({burst_total} bytes) is below the limit {limit}"), replay),
+        In::Other(e) if must_overflow => rep.violation("C17/inbound-no-overflow-error-beyond-limit", format!("{total} wire bytes (>= limit {limit} + step) behind {nsmall} small frames of {small_len} bytes in the same reads: {e}"), replay),
+        In::Other(e) if must_accept => rep.violation("C17/inbound-frame-below-limit-not-delivered", format!("{total} wire bytes behind {nsmall} small frames: {e}"), replay),
+        In::Other(_) => rep.count("inbound_other_in_grey_zone"),
+    }
+}
+
 fn check_outbound(rep: &mut Report, pos: usize, len: usize, limit: usize, step: usize, label: &str) {
     if let Err(p) = vnet::catch(|| check_outbound_inner(rep, pos, len, limit, step, label)) {
         rep.violation("C17/panic-while-sending", format!("{p}; pos {pos} len {len}"), json!({"monitor": "c17", "dir": "out", "pos": pos, "len": len, "limit": limit, "build": label}));
@@ -271,7 +371,10 @@ pub fn run(cfg: &Cfg) -> Report {
             rep.notes.push(format!("replay recorded limit {} but this build has {limit}", r["limit"]));
             return rep;
         }
-        if r["dir"] == "in" {
+        if r["dir"] == "burst" {
+            let chunks: Vec<usize> = r["chunks"].as_array().unwrap().iter().map(|c| c.as_u64().unwrap() as usize).collect();
+            check_inbound_burst(&mut rep, r["nsmall"].as_u64().unwrap() as usize, r["small_len"].as_u64().unwrap() as usize, r["wire_bytes"].as_u64().unwrap() as usize, r["terminated"].as_bool().unwrap(), &chunks, limit, step, label);
+        } else if r["dir"] == "in" {
             let chunks: Vec<usize> = r["chunks"].as_array().unwrap().iter().map(|c| c.as_u64().unwrap() as usize).collect();
             check_inbound(&mut rep, r["wire_bytes"].as_u64().unwrap() as usize, r["terminated"].as_bool().unwrap(), &chunks, limit, step, label);
         } else {
@@ -296,6 +399,12 @@ pub fn run(cfg: &Cfg) -> Report {
                 check_inbound(&mut rep, total, term, &chunks, limit, step, label);
                 rep.sample(8, || json!({"direction": "inbound", "wire_bytes": total, "terminated": term, "limit": limit}));
             }
+        }
+        if cfg.mine(5) {
+            check_inbound_burst(&mut rep, 3, 100, limit + 2 * step, false, &[1 << 20], limit, step, label);
+        }
+        if cfg.mine(6) && cfg.thorough {
+            check_inbound_burst(&mut rep, 1, 300, limit + 2 * step, true, &[65536, 4096], limit, step, label);
         }
         // outbound at the production limit is practically unreachable (quadratic re-serialisation);
         // one large-but-affordable message checks the growth path at scale
@@ -360,6 +469,28 @@ pub fn run(cfg: &Cfg) -> Report {
         total += stride;
     }
     rep.sample(8, || json!({"direction": "inbound", "wire_bytes": "1..=limit+2*step+2 (every size)", "limit": limit, "chunkings": ["whole", "255/256/257", "random", "1-byte near the limit"]}));
+    // inbound bursts: small frames in front of a big one, chunked across the frame boundaries
+    let nb = cfg.n(1500, 40_000);
+    for _ in 0..nb {
+        let nsmall = rng.range(1, 4);
+        let small_len = *rng.pick(&[41usize, 100, 254, 255, 256, 300, 700]);
+        let total = match rng.below(6) {
+            0 => limit + step + rng.range(0, 2 * step),
+            1 => limit + 2 * step + rng.range(0, 3000),
+            2 => limit - rng.range(1, 3 * step),
+            3 => limit.saturating_sub(nsmall * (small_len + 1) + rng.range(1, 600)),
+            4 => limit + rng.range(0, step),
+            _ => rng.range(FRAME_FIXED + 2, limit),
+        };
+        let chunks = match rng.below(5) {
+            0 => vec![usize::MAX / 2],
+            1 => vec![4096],
+            2 => vec![1000, 37],
+            3 => vec![rng.range(200, 9000), rng.range(1, 300)],
+            _ => vec![255, 256, 257],
+        };
+        check_inbound_burst(&mut rep, nsmall, small_len, total.max(FRAME_FIXED + 2), rng.chance(1, 2), &chunks, limit, step, label);
+    }
     // outbound: (pos, len) with pos+len+1 within +-3 of every multiple of the step, and the whole
     // last 2 KiB before the limit (quick); all end positions (thorough)
     let mut idx = 0u64;
